@@ -102,16 +102,20 @@ PROPS = {
         unreached=["EntryWriter::finish (timestamp millis, namespace replication, dimension arrays)", "MetricsForDimensionSet::new (per-set prefix text)", "EntryDimensions cartesian product"],
     ),
     "C16": dict(
-        verus=[("bgq", {}, ["consume", "report_validation_error"]), ("sinks", {})],
+        verus=[("emf_wav", {}), ("bgq", {}, ["consume", "report_validation_error"]), ("sinks", {}), ("emf_finish", {}, ["EntryWriter::finish"])],
         kani=["emf_buf"],
-        technique="Kani proof harnesses on the real advance_slices (all lengths/counts per call-site slice count) + bounded scripted-writer harness on write_all_vectored; Verus contract on Receiver::consume",
-        level_text="Kani/CBMC proof that advance_slices leaves exactly the suffix of the concatenation after `count` bytes with no leading empty slice, for every slice count used at a call site (<=5), all lengths and contents; "
-                   "bounded Kani check of write_all_vectored against a scripted writer (thorough tier); Verus proof that the queue's consume, the immediate-flush sink's append (next then flush) and Tee::next / Tee::flush (both streams, eagerly) hand every entry on exactly once whatever the stream returns.",
-        level_note="Trusted: CBMC/CaDiCaL, Kani's model of std; slice lengths are bounded to 4 bytes in the advance_slices harnesses (the function never reads contents; lengths only enter through checked_sub/slicing). "
-                   "write_all_vectored is a BOUNDED stand-in (not counted as proved).",
+        technique="Verus contract + loop invariant on the real write_all_vectored retry loop (any writer behaviour), composed with Kani proof harnesses on the real advance_slices; Verus contracts on EntryWriter::finish, Receiver::consume, FlushImmediately::append, Tee",
+        level_text="Deductive proof (Verus/z3) that write_all_vectored, for ANY sequence of writer answers (accept any 1..=offered bytes, Ok(0), Interrupted any number of times, hard error), delivers on success exactly the concatenation "
+                   "of its buffers, in order, once, and on error only a prefix of it - loop invariant 'received + remaining = all, offered list rebuilt each round'; this discharges the contract EntryWriter::finish assumes for it "
+                   "(finish: one vectored write per emitted line, in order). advance_slices is used through the contract that Kani/CBMC checks on the real function for every slice count used at a call site (<=5), all lengths and contents. "
+                   "Verus proof that the queue's consume, the immediate-flush sink's append (next then flush) and Tee::next / Tee::flush (both streams, eagerly) hand every entry on exactly once whatever the stream returns.",
+        level_note="Trusted: Verus + z3; four container-conversion statements of write_all_vectored are replaced by stand-ins (W0-W3, listed in the unit; SmallVec is modelled by the list of byte slices its elements denote); "
+                   "io::Write::write_vectored's documented contract (takes a prefix of what was offered, nothing on error) is the environment assumption; termination is not proved (a writer may answer Interrupted forever). "
+                   "CBMC/CaDiCaL, Kani's model of std; slice lengths are bounded to 4 bytes in the advance_slices harnesses (the function never reads contents; lengths only enter through checked_sub/slicing).",
         explanation="vectored write loop and sink error handling",
-        assumptions=["io::Write implementations report the number of bytes they accepted truthfully"],
-        unreached=["FormattedEntryIoStream::next (Format trait not modelled)", "EntryWriter::finish: one vectored write sequence per emitted line"],
+        assumptions=["io::Write implementations report the number of bytes they accepted truthfully and take nothing when they return an error",
+                     "advance_slices meets its contract beyond 5 slices x 4 bytes (Kani harness bound)"],
+        unreached=["FormattedEntryIoStream::next (Format trait not modelled)"],
     ),
     "C12": dict(
         verus=[("emf_sample", {})],
